@@ -32,6 +32,9 @@ TRUSTED_BASE = [
     "Labels.__eq__/Capacities.__eq__ are modelled as equality of the field dictionaries (C15 proves this for Capacities), "
     "JSONData.__eq__ as equality of json.dumps(json.loads(text), sort_keys=True); the harness computes these canonical forms itself "
     "from the objects' fields, so a comparison in the code that disagrees with them shows up as a correspondence difference",
+    "the edit-script semantics of the theorems (Lemmas/C17Script.lean: applyNode/applySvc/applyIface, expNode/expSvc/expIface) are "
+    "hand-written; checked differentially: `apply` against the real add_*/remove_*/set_* calls on a deep copy, `expect` against "
+    "what the real diff returns for that copy",
     "Python dict/set semantics (keys unique, set of slivers keyed by (resource_name, node_id)) modelled by name-keyed lists with a "
     "Nodup-names well-formedness hypothesis; output order is not compared (sets / arbitrary set iteration order)",
 ]
